@@ -46,7 +46,7 @@ impl FixtureDatabase {
 @tags C05 C18 C08
 @ret r
 @rename sort_by vp_sort_by
-@closure 1 |a: &FixtureDefinition, b: &FixtureDefinition| -> (o: core::cmp::Ordering) ensures o == name_cmp()(*a, *b)
+@closure sort_by:1 |a: &FixtureDefinition, b: &FixtureDefinition| -> (o: core::cmp::Ordering) ensures o == name_cmp()(*a, *b)
 @sig
     requires wf_names(self.defs()),
     ensures avail_post(dvs(r@), self.avv(), pv(file_path)),
@@ -352,9 +352,9 @@ impl FixtureDatabase {
 @ret r
 @rename count vp_count
 @nocontinue 1
-@closure 1 |d: &&FixtureDefinition| -> (b: bool) ensures b == (pbv(&d.file_path) == pv(file_path))
-@closure 2 |d: &&FixtureDefinition| -> (b: bool) ensures b == x_ws_plugin(*d)
-@closure 3 |d: &&FixtureDefinition| -> (b: bool) ensures b == x_third(*d)
+@closure find:1 |d: &&FixtureDefinition| -> (b: bool) ensures b == (pbv(&d.file_path) == pv(file_path))
+@closure find:2 |d: &&FixtureDefinition| -> (b: bool) ensures b == x_ws_plugin(*d)
+@closure find:3 |d: &&FixtureDefinition| -> (b: bool) ensures b == x_third(*d)
 @sig
     ensures opt_dv(r) == op_resolve_ff(bucket(self.defs(), fixture_name@), pv(file_path), canon_pv(pv(file_path))),
 @after definitions 1
